@@ -69,9 +69,9 @@ theorem stepId_rel (S : Spec) (st st' : RunSt) (id : String) (h : stepId S st id
     cases h
     refine .op _ _ u _ hu (by omega) ?_ ?_ rfl
     · have hb : (List.map (resolve S) (List.take u.inp.length st.stack) == List.map (resolve S) u.inp ||
-          u.comm && List.map (resolve S) (List.take u.inp.length st.stack) == (List.map (resolve S) u.inp).reverse) = true := by
+          (u.comm && (BinOp.ofName? u.op).any (·.comm)) && List.map (resolve S) (List.take u.inp.length st.stack) == (List.map (resolve S) u.inp).reverse) = true := by
         cases hq : (List.map (resolve S) (List.take u.inp.length st.stack) == List.map (resolve S) u.inp ||
-          u.comm && List.map (resolve S) (List.take u.inp.length st.stack) == (List.map (resolve S) u.inp).reverse)
+          (u.comm && (BinOp.ofName? u.op).any (·.comm)) && List.map (resolve S) (List.take u.inp.length st.stack) == (List.map (resolve S) u.inp).reverse)
         · exact absurd (by rw [hq]; rfl) hargs
         · rfl
       simp only [Bool.or_eq_true, beq_iff_eq, Bool.and_eq_true] at hb
